@@ -26,11 +26,12 @@ def gen_cases(rnd, n):
         nnum = rnd.randint(1, 2)
         as_numbers = rnd.random() < 0.3
         nrows = rnd.randint(0, 8)
+        npool = qgen.num_pool(rnd)
         A = []
         for _r in range(nrows):
             row = [rnd.choice(keyvals) for _k in range(max(nkeys, 1))]
             for _c in range(nnum):
-                v = rnd.choice(qgen.NUMSTR_POOL)
+                v = rnd.choice(npool)
                 row.append(qgen.num(v) if as_numbers else v)
             A.append(row)
         kcols = max(nkeys, 1)
@@ -90,6 +91,7 @@ def run(res, tier, seed):
     for c in cases[:2] + cases[-2:]:
         res.sample({'query': qgen.render_query(c['q'], 'py'), 'A': c['A']})
     engine_corr.run_cases(res, 'C03', cases, 'py', rnd=random.Random(seed + 7))
+    engine_corr.js_leg(res, 'C03', cases, rnd=random.Random(seed + 107))
     builtin_dispatch_check(res)
 
 
